@@ -1,7 +1,8 @@
 (* CorrForms.v -- shared correspondence entry for C04 and C08 (harness/src/forms.rs).
    op 9: dst.clone_from(&src) (src = identities 0.., dst = identities 100..)
    case: [op; form; elem; N; pan; front; back; mode]
-   elem: 0 Tr (x Tr), 1 u32 (x u32), 2 Tr x u32, 3 u32 x Tr (zip only), 4 Cn (Clone only), 5 zero-sized, 6 zero-sized with a counted destructor (generate / default only);
+   elem: 0 Tr (x Tr), 1 u32 (x u32), 2 Tr x u32, 3 u32 x Tr (zip only), 4 Cn (Clone only), 5 zero-sized, 6 zero-sized with a counted destructor (generate / default only),
+         7 Tr mapped to plain u32 (map only);
    mode (how the caller's code fails: own panic / destructor of an argument) does not change
    what the crate has to do *)
 From GA Require Import Base Codec Builder Iter Functional.
@@ -30,7 +31,7 @@ Definition run_forms (case : list Z) : list Z :=
   match case with
   | op :: form :: elem :: n :: pan :: front :: back :: _ =>
     let N := znat n in
-    let tracked := (elem =? 0) || (elem =? 2) in         (* the (left / only) input is drop-tracked *)
+    let tracked := (elem =? 0) || (elem =? 2) || (elem =? 7) in         (* the (left / only) input is drop-tracked *)
     let tracked_r := (elem =? 0) || (elem =? 3) in       (* zip: the right input is drop-tracked *)
     let p := if pan <? 0 then None else Some (znat pan) in
     (* elem 5: zero-sized elements -- every identity reads 0 *)
@@ -40,6 +41,8 @@ Definition run_forms (case : list Z) : list Z :=
     let fresh_id := if zst then (fun (_ : nat) (_ : list Z) => 0) else fresh_id in
     if op =? 0 then
       let '(o, e, calls) := map_ (tracked && ((form =? 0) || (form =? 3))) fresh_id p a in
+      (* elem 7: drop-tracked inputs mapped to plain outputs -- the outputs (identities >= 1000) have no destructor *)
+      let e := if elem =? 7 then filter (fun x => match x with EDrop i => i <? 1000 | _ => true end) e else e in
       enc_outcome o ++ enc_tail calls e
     else if op =? 1 then
       let ol := tracked && ((form =? 9) || (form / 3 =? 0)) in
